@@ -170,6 +170,7 @@ def main(run):
     run.prove(extra_targets=["proofs/Pinned_parse.vo", "proofs/Pinned_parserecv.vo", "proofs/Pinned_dev.vo"])
     model_ok = run.build_model()
     run.run_findings()
+    run.pylite(['info_decode', 'device_side'])
     if model_ok:
         for what, c, m in run.differential(cases(run)):
             run.violation(what, {"call": c["cmd"][:2000], "implementation": c["impl"][:3000],
